@@ -121,6 +121,8 @@ def worker(unit, emit):
                 rec('1' * n, 'digits-%d' % n)
                 rec('A' * n, 'letters-%d' % n)
                 rec(base + ' ' * n, 'pad-%d' % n)
+                for k in (2, 3, 5, 7):      # a documented beginning (prefix, type digits, special ranges) followed by very many digits
+                    rec(base[:k] + '1' * n, 'head-%d-digits-%d' % (k, n))
             # surroundings
             for pre, post in ((' ', ' '), ('\t', '\n'), ('\n', ''), ('', '\n'), (' ', '　'), ('\x00', '')):
                 rec(pre + base + post, 'surround')
